@@ -36,6 +36,15 @@ theorem C14_retry_until_nil (cfg : Cfg) (rs : RunState) (i : Nat) (e : Event) (e
   · exact absurd hown ((C14_only_own_state rs i e).mp h)
   · exact h
 
+/-- "Not lost by a crash between invocation and acknowledgement": whatever the hook's failure was — an error of its own, or
+an error because its process lost the role while it ran (`Outcome.lost`) — and whether or not the streamer's
+acknowledgement looks at the cancelled context (`env.ackIgn`), a delivery whose hook did not return nil leaves the cursor
+where it was, so the event is delivered again. -/
+theorem C14_failed_hook_never_acked (cfg : Cfg) (rs : RunState) (i : Nat) (e : Event) (env : Env) (st : OpSt)
+    (hown : e.runState = rs) (hfail : (hookHandle cfg rs e env st).1 ≠ .ok ()) :
+    (deliver cfg (.hook rs) i e env st).2.sys.cursors = st.sys.cursors :=
+  Classical.byContradiction (fun hmoved => hfail (C14_retry_until_nil cfg rs i e env st hown hmoved))
+
 /-- The hook is not invoked when the run's object no longer decodes (its data was deleted in the meantime): the event is
 skipped and acknowledged — the exception the property names. -/
 theorem C14_deleted_data_skipped (cfg : Cfg) (rs : RunState) (e : Event) (st : OpSt) (record : Rec)
@@ -63,6 +72,17 @@ example :
     let s1 := runActs cfg {} (pre ++ [.step (.hook 5) { outcomes := [.err 0] }, .step (.hook 3) { outcomes := [.err 0] }])
     let s2 := runActs cfg s1 [.tick 1, .step (.hook 5) {}, .step (.hook 5) {}, .step (.hook 5) { outcomes := [.ok] }]
     s1.cursor (.hook 5) = 0 ∧ s1.cursor (.hook 3) = 2 ∧ s2.cursor (.hook 5) = 2 := by
+  decide +kernel
+
+/-- non-vacuity for role loss inside the hook with a streamer that acknowledges under a cancelled context: the hook fails
+while its process loses the role (cursor stays, process back at the role scheduler), then succeeds (cursor moves) -/
+example :
+    let cfg : Cfg := { calls := [{ kind := .step, src := 1, dests := [2] }], hooks := [5], backoffSec := 1 }
+    let pre : List Act := [.trigger 0 0 7 {}, .step .outbox {}, .step (.step 1 1 1) {}, .step (.step 1 1 1) { outcomes := [.ret 2 8] },
+      .step .outbox {}, .step (.hook 5) {}]
+    let s1 := runActs cfg {} (pre ++ [.step (.hook 5) { outcomes := [.lost 0], ackIgn := true }])
+    let s2 := runActs cfg s1 [.step (.hook 5) {}, .step (.hook 5) { outcomes := [.ok], ackIgn := true }]
+    s1.cursor (.hook 5) = 0 ∧ s1.pstate (.hook 5) = .needRole ∧ s2.cursor (.hook 5) = 2 := by
   decide +kernel
 
 end WorkflowModel.C14
